@@ -137,7 +137,7 @@ fn constructor(rep: &mut Report, r: &mut Rng, n: u64) {
     let l4 = mmu.l4_addr();
     for i in 0..n {
         rep.eval();
-        let st = arena.st();
+        let mut st = arena.st();
         // slot contents
         let slot_kind = r.below(5);
         let slot_raw = match slot_kind {
